@@ -370,7 +370,7 @@ def run_peaks_exh(case):
     t.count('peak_candidates_dropped', 0)
     for tail in itertools.product(range(4), repeat=L - (0 if first is None else 1)):
         sig = tail if first is None else (first,) + tail
-        for dt in ('int64', 'float64'):
+        for dt in ('int64', 'float64', 'uint8'):
             data = np.array(sig, dtype=dt)
             ro = data.copy()
             ro.setflags(write=False)
@@ -417,9 +417,11 @@ def run_peaks(case):
     t.count('peak_candidates_dropped', 0)
     for _ in range(12):
         x = _random_signal(rng)
-        dt = ['int64', 'float64', 'int32', 'float32', 'uint8'][int(rng.integers(5))]
-        if dt == 'uint8':
+        dt = ['int64', 'float64', 'int32', 'float32', 'uint8', 'uint16', 'int8', 'uint32'][int(rng.integers(8))]
+        if dt in ('uint8', 'uint16', 'uint32'):
             x = np.abs(x) % 256
+        if dt == 'int8':
+            x = np.clip(np.asarray(x) * 12, -128, 127)          # steps larger than the positive range of the dtype
         data = np.asarray(x).astype(dt)
         N = len(data)
         d = int(rng.choice([0, 1, 2, 3, 5, 10, 50, N, N + 5]))
